@@ -221,3 +221,82 @@ Definition guards_complete (empty_refused : bool) (gs : list sguard) : bool :=
   empty_refused && existsb (sguard_eqb GFirstZero) gs && existsb (sguard_eqb GStartGeFirst) gs
   && existsb (sguard_eqb GNotIncreasing) gs.
 
+
+(* ------------------------------------------------------------------ the conversion / collection models
+   (simple_conversion, conversion_with_qe_map, simple_collection): translator/c17.py reads what they add to their
+   sink bucket as a [texpr] in which TStep stands for the content of their SOURCE bucket (photon for a conversion,
+   charge for the collection); `detector.time_step` is a clock atom there: these models must not depend on it. *)
+Inductive bucket : Type := BkPhoton | BkCharge | BkPixel.
+
+Record conv_row : Type := {
+  cr_model : string;
+  cr_path : string;
+  cr_src : bucket;
+  cr_sink : bucket;
+  cr_identity : bool;      (* the collection: the sink receives exactly the content of the source *)
+  cr_expr : texpr
+}.
+
+Definition is_step (e : texpr) : bool := match e with TStep => true | _ => false end.
+
+Definition bucket_eqb (a b : bucket) : bool :=
+  match a, b with
+  | BkPhoton, BkPhoton | BkCharge, BkCharge | BkPixel, BkPixel => true
+  | _, _ => false
+  end.
+
+(* a conversion photon -> charge adds (a step-independent factor) * photon; the collection charge -> pixel adds the
+   charge itself; a branch that draws random numbers is a noise option (outside the property) *)
+Definition conv_row_ok (r : conv_row) : bool :=
+  has_random (cr_expr r)
+  || (if cr_identity r
+      then is_step (cr_expr r) && bucket_eqb (cr_src r) BkCharge && bucket_eqb (cr_sink r) BkPixel
+      else lin (cr_expr r) && bucket_eqb (cr_src r) BkPhoton && bucket_eqb (cr_sink r) BkCharge).
+
+Definition conv_table_ok (t : list conv_row) : bool := forallb conv_row_ok t.
+
+Definition bad_conv_rows (t : list conv_row) : list nat :=
+  indices_where (fun r => negb (conv_row_ok r)) 0 t.
+
+(* the quantum efficiency a conversion row applies: its value for a unit photon content *)
+Definition qe_of (env : string -> Q) (r : conv_row) : Q := eval env 1 (cr_expr r).
+
+(* every listed model has at least one deterministic row *)
+Definition conv_models_covered (t : list conv_row) (models : list string) : bool :=
+  forallb (fun m => existsb (fun r => String.eqb (cr_model r) m && negb (has_random (cr_expr r))) t) models
+  && negb (match models with [] => true | _ => false end).
+
+(* correspondence: one real call on a detector whose source bucket holds cc_src (per pixel); observed: what was
+   added to the sink bucket (per pixel) *)
+Record conv_case : Type := {
+  cc_tol : Q;
+  cc_row : nat;
+  cc_env : list (string * Q);
+  cc_pix : list (list (string * Q));
+  cc_src : list Q;
+  cc_obs : list Q
+}.
+
+Definition conv_expected (r : conv_row) (c : conv_case) : list Q :=
+  map (fun p => Qred (eval (lookup (fst p ++ cc_env c)) (snd p) (cr_expr r))) (combine (cc_pix c) (cc_src c)).
+
+Definition conv_case_wellposed (t : list conv_row) (c : conv_case) : bool :=
+  match nth_error t (cc_row c) with
+  | None => false
+  | Some r => negb (has_random (cr_expr r))
+              && forallb (fun px => closed_in (px ++ cc_env c) (cr_expr r)) (cc_pix c)
+              && (List.length (cc_pix c) =? List.length (cc_src c))%nat
+              && negb (match cc_pix c with [] => true | _ => false end)
+              && existsb (fun x => negb (Qeq_bool x 0)) (cc_src c)
+  end.
+
+Definition conv_case_ok (t : list conv_row) (c : conv_case) : bool :=
+  match nth_error t (cc_row c) with
+  | None => false
+  | Some r => all2 (close (cc_tol c)) (conv_expected r c) (cc_obs c)
+  end.
+
+Definition conv_mismatches (t : list conv_row) (cases : list conv_case) : list nat :=
+  indices_where (fun c => negb (conv_case_ok t c)) 0 cases.
+Definition conv_illposed (t : list conv_row) (cases : list conv_case) : list nat :=
+  indices_where (fun c => negb (conv_case_wellposed t c)) 0 cases.
